@@ -57,6 +57,7 @@ type gateEvt struct {
 type fsrv struct {
 	name      string
 	port      int
+	portLock  net.Listener
 	chunkSize int
 
 	mu     sync.Mutex
@@ -95,7 +96,11 @@ func ephemeralLow() int {
 // listenStable listens on a port below the ephemeral range, so that after the
 // listener is closed (fault "refused") no other process is handed the port by
 // the kernel before it is re-opened.
-func listenStable(rng *rand.Rand) (net.Listener, int, error) {
+//
+// A port is additionally reserved across processes (other seeds of this check
+// may run at the same time) by binding an abstract unix socket named after it;
+// the reservation disappears with the process.
+func listenStable(rng *rand.Rand) (ln net.Listener, port int, lock net.Listener, err error) {
 	lo, hi := 10000, ephemeralLow()-1
 	var lastErr error
 	for i := 0; i < 400; i++ {
@@ -109,24 +114,34 @@ func listenStable(rng *rand.Rand) (net.Listener, int, error) {
 		if used {
 			continue
 		}
-		ln, err := net.Listen("tcp4", "127.0.0.1:"+strconv.Itoa(p))
+		release := func() {
+			portMu.Lock()
+			delete(portsInUse, p)
+			portMu.Unlock()
+		}
+		lock, err = net.Listen("unix", "@verif-c13-port-"+strconv.Itoa(p))
+		if err != nil {
+			lastErr = err
+			release()
+			continue
+		}
+		ln, err = net.Listen("tcp4", "127.0.0.1:"+strconv.Itoa(p))
 		if err == nil {
-			return ln, p, nil
+			return ln, p, lock, nil
 		}
 		lastErr = err
-		portMu.Lock()
-		delete(portsInUse, p)
-		portMu.Unlock()
+		_ = lock.Close()
+		release()
 	}
-	return nil, 0, fmt.Errorf("no stable port: %v", lastErr)
+	return nil, 0, nil, fmt.Errorf("no stable port: %v", lastErr)
 }
 
 func newFsrv(name string, rng *rand.Rand, chunk int) (*fsrv, error) {
-	ln, port, err := listenStable(rng)
+	ln, port, lock, err := listenStable(rng)
 	if err != nil {
 		return nil, err
 	}
-	s := &fsrv{name: name, port: port, chunkSize: chunk, ln: ln, conns: map[net.Conn]struct{}{}}
+	s := &fsrv{name: name, port: port, portLock: lock, chunkSize: chunk, ln: ln, conns: map[net.Conn]struct{}{}}
 	s.script = func(int) behaviour { return behaviour{Kind: bStatus, Status: 503, Body: []byte("unscripted")} }
 	s.wg.Add(1)
 	go s.acceptLoop(ln)
@@ -208,6 +223,9 @@ func (s *fsrv) close() {
 	s.mu.Unlock()
 	s.down()
 	s.wg.Wait()
+	if s.portLock != nil {
+		_ = s.portLock.Close()
+	}
 	portMu.Lock()
 	delete(portsInUse, s.port)
 	portMu.Unlock()
